@@ -1,8 +1,8 @@
 SPECIFICATION MCSpec
 CONSTANTS
-  Actors = {"a1", "a2", "a3", "a4"}
+  Actors = {"a1", "a2", "a3"}
   Victims = {}
-  Prog <- P4
+  Prog <- P3t
   Dur <- D
   InitVal = 0
   TimeoutPath = "as_written"
